@@ -530,6 +530,7 @@ func runC06(c *Check) {
 		c.MinInstances("C06-R9", 2)
 	}
 	ruleWholePendingListOffered(c, p, "C06-R10")
+	ruleNoPendingItemPassedOver(c, p, "C06-R12")
 	ruleVerifierBoundBeforeValidation(c, p, "C06-R11")
 	c.MinInstances("C06-R5", 4)
 
@@ -1195,6 +1196,7 @@ func runC08(c *Check) {
 	c.Doc("C08-R3", "EO: a submission loop passes over a tick without reading its pending list only if its own tracker reports empty (otherwise pending items never leave the count and the limit is never released).")
 	ruleLoopSkipsOnlyWhenOwnTrackerEmpty(c, p, "C08-R3")
 	ruleWholePendingListOffered(c, p, "C08-R6")
+	ruleNoPendingItemPassedOver(c, p, "C08-R7")
 	ruleSubmissionBounded(c, p, "C08-R5")
 }
 
@@ -2230,4 +2232,62 @@ func ruleWholePendingListOffered(c *Check, p *Prog, rule string) {
 		c.Unk(rule, "HeaderSubmissionLoop ⟂ submitter call", fnName(root), "", "anchor lost: no call of the generic submitter reachable from the header submission loop")
 	}
 	c.MinInstances(rule, 1)
+}
+
+// ruleNoPendingItemPassedOver (C06-R12 = C08-R7): the function that turns the pending data into
+// the list handed to the submitter walks the pending list in height order. Acceptance of the list
+// moves the single watermark to the height of its last item, so the list must not have a gap: from
+// the point where an item is known to carry transactions, the only ways on are the append of that
+// item or leaving the function — never the next item (a signing failure that is logged and
+// passed over is acknowledged with the item behind it, and that block's data is never published).
+func ruleNoPendingItemPassedOver(c *Check, p *Prog, rule string) {
+	c.Doc(rule, "EO: in the builder of the signed-data list, from the not-empty edge of an item (or, without an emptiness test, from the loop's entry into the body) no path reaches the next iteration without appending the item: the list handed to the submitter has no gap that the watermark would jump.")
+	steps := stepFuncs(c, p, mgrM("DataSubmissionLoop"), 3, "(*"+rootPath+"/block.PendingData).getPendingData")
+	n := 0
+	for _, step := range steps {
+		g := BuildECFG(p, step, ExpandOpts{MaxDepth: 3})
+		c.NoteGraph(g)
+		fn := fnName(step)
+		apps := g.Select(func(n *Node) bool { return n.Ctx.Depth == 0 && CallName(n) == "append" })
+		if len(apps) == 0 {
+			continue
+		}
+		hdr := loopHeaderOf(apps[0].In.Block())
+		if hdr == nil {
+			continue
+		}
+		head := g.headNode(g.RootCtx, hdr)
+		if head == nil {
+			continue
+		}
+		n++
+		isEmptyTest := func(t *Term) bool {
+			return t.Op == "bin" && len(t.Args) == 2 && strings.HasPrefix(t.Args[0].String(), "len(") && strings.HasSuffix(t.Args[0].String(), ".Txs)") && t.Args[1].Name == "0"
+		}
+		src := g.Select(EdgeWhere(func(t *Term, pol bool, n *Node) bool {
+			t, pol = normFact(t, pol)
+			if n.Ctx.Depth != 0 || !isEmptyTest(t) {
+				return false
+			}
+			return (t.Name == "==" && !pol) || (t.Name == "!=" && pol) || (t.Name == ">" && pol)
+		}))
+		if len(src) == 0 {
+			// no emptiness test: every item that enters the body
+			src = g.Select(func(n *Node) bool {
+				return n.Ctx.Depth == 0 && n.Kind == NTrue && n.In != nil && n.In.Block() == hdr
+			})
+		}
+		if len(src) == 0 {
+			c.Unk(rule, fnShort(step)+" ⟂ no item with transactions is passed over", fn, p.Pos(step.Pos()), "anchor lost: the entry of the loop body over the pending list")
+			continue
+		}
+		isApp := nodeSet(apps)
+		path := g.PathAvoiding(src, func(n *Node) bool { return n == head }, isApp)
+		c.Decide(rule, fnShort(step)+" ⟂ no item with transactions is passed over", fn, p.InstrPos(apps[0].In),
+			"an item that carries transactions is appended to the list or ends the pass",
+			"a pending item that carries transactions can be passed over without being queued while later items still are: when the DA layer accepts the list, the watermark moves to its last height, past the item left out — that block's data is never published, in this run or after a restart", g, path)
+	}
+	if n == 0 {
+		c.Unk(rule, "anchor-count", "", "", "anchor lost: no loop that appends to the list of signed data")
+	}
 }
